@@ -55,6 +55,7 @@ pub fn generator(prop: &str) -> Option<Gen> {
         "C17" => Some(gen::gen_c17),
         "C15" => Some(gen::gen_c15),
         "C18" => Some(gen::gen_c18),
+        "C13" => Some(gen::gen_c13),
         _ => None,
     }
 }
@@ -74,6 +75,7 @@ pub fn budget(prop: &str, tier: &str) -> u64 {
         "C17" => 300,
         "C15" => 500,
         "C18" => 300,
+        "C13" => 600,
         "C14" => 3 * 6 * 155 + 200,
         _ => 150,
     };
@@ -93,6 +95,8 @@ pub fn run_scenario(world: &transport::Shared, prop: &str, lines: &[String]) -> 
         w.recvs = 0;
         w.reads = 0;
         w.partial.clear();
+        w.req_index = 0;
+        w.raw_replies.clear();
     }
     let mut sess = Session::new(world.clone());
     for l in lines {
@@ -121,10 +125,39 @@ pub fn run_scenario(world: &transport::Shared, prop: &str, lines: &[String]) -> 
     (mm, jj, nops, nreq, sig)
 }
 
+thread_local! {
+    /// the world of the running check, for generators that need a first pass through the real client (C13)
+    pub static GEN_WORLD: std::cell::RefCell<Option<transport::Shared>> = std::cell::RefCell::new(None);
+}
+
+/// run a scenario for its trace only
+pub fn trace_scenario(lines: &[String]) -> Vec<String> {
+    let world = GEN_WORLD.with(|w| w.borrow().clone()).expect("no world");
+    {
+        let mut w = world.borrow_mut();
+        w.faults = transport::Faults { max_requests_per_op: 64, ..Default::default() };
+        w.sends = 0;
+        w.recvs = 0;
+        w.reads = 0;
+        w.partial.clear();
+        w.req_index = 0;
+        w.raw_replies.clear();
+    }
+    let mut sess = Session::new(world.clone());
+    for l in lines {
+        sess.line(l);
+    }
+    drop(sess);
+    let _ = world.borrow_mut().lean.end("");
+    let t = world.borrow_mut().lean.take_trace();
+    t
+}
+
 pub fn run(prop: &str, tier: &str, seed: u64, corpus: &[Vec<String>]) -> Report {
     let gen = generator(prop).expect("no generator for property");
     let n = budget(prop, tier);
     let world = transport::new_world();
+    GEN_WORLD.with(|w| *w.borrow_mut() = Some(world.clone()));
     let mut rep = Report {
         evaluations: 0,
         distinct: HashSet::new(),
@@ -140,7 +173,12 @@ pub fn run(prop: &str, tier: &str, seed: u64, corpus: &[Vec<String>]) -> Report 
         let mut r = rng.fork();
         scenarios.push(gen(&mut r, &mut rep.dist, i));
     }
+    let running = std::env::var("KH_RUNNING_FILE").ok();
     for sc in scenarios {
+        if let Some(f) = &running {
+            // should the process die inside this scenario (stack overflow, abort, watchdog), this file is the replay
+            let _ = std::fs::write(f, sc.join("\n") + "\n");
+        }
         let (mm, jj, nops, nreq, sig) = run_scenario(&world, prop, &sc);
         rep.evaluations += 1;
         rep.ops += nops;
@@ -160,6 +198,9 @@ pub fn run(prop: &str, tier: &str, seed: u64, corpus: &[Vec<String>]) -> Report 
         if rep.failures.len() > 40 {
             break;
         }
+    }
+    if let Some(f) = &running {
+        let _ = std::fs::remove_file(f);
     }
     rep
 }
